@@ -1,8 +1,8 @@
-SPECIFICATION Spec
+SPECIFICATION GenSpec
 CONSTANTS
-  Sessions = {"M1", "M2"}
+  Sessions = {"M1"}
   Legacy = {}
-  InitOn = {"M1", "M2"}
+  InitOn = {"M1"}
   InitSub = {}
   Kinds = {}
   NotifOf <- NotifStd
@@ -10,8 +10,8 @@ CONSTANTS
   Want <- WantAll
   CapOff = {}
   TTLPos = FALSE
-  D = 0
-  MaxTime = 0
+  D = 2
+  MaxTime = 2
   MaxChanges = 0
   MaxUpdates = 1
   MaxCalls = 0
@@ -19,14 +19,18 @@ CONSTANTS
   ListenOwns = TRUE
   ResubRace = FALSE
   GenCheck = TRUE
-  ModernUnsub = TRUE
+  ModernUnsub = FALSE
   ForeignUnsub = FALSE
   Listeners = {"M1"}
-  MaxListens = 2
-  FailUndo = TRUE
-  Stepwise = FALSE
-  Gates = TRUE
-  GateNames = {"unsub"}
-  ClientFirst = TRUE
-INVARIANTS TypeOK UpdatedExactlySubscribers SubsOnlyCurrent ForgottenOnClose MapsOnlySessions
+  MaxListens = 1
+  FailUndo = FALSE
+  Stepwise = TRUE
+  Gates = FALSE
+  GateNames = {}
+  ClientFirst = FALSE
+  MinSteps = 1
+  MaxSteps = 4
+  Bias = FALSE
+  GenOps = {"listen", "unlisten", "updated"}
+INVARIANTS LeadUpdated
 CHECK_DEADLOCK FALSE
